@@ -1642,6 +1642,27 @@ class _FuncEval:
                 return ("logger", q)
         if isinstance(v, ast.Constant):
             return ("const", v.value)
+        def immutable_literal(e_) -> bool:
+            if isinstance(e_, ast.Constant):
+                return True
+            if isinstance(e_, ast.UnaryOp) and isinstance(e_.op, (ast.USub, ast.UAdd)):
+                return immutable_literal(e_.operand)
+            if isinstance(e_, ast.Tuple):
+                return all(immutable_literal(x_) for x_ in e_.elts)
+            if isinstance(e_, ast.Call) and all(immutable_literal(a_) for a_ in e_.args) and \
+                    all(k_.arg and immutable_literal(k_.value) for k_ in e_.keywords):
+                d_ = dotted(e_.func)
+                if d_ is None:
+                    return False
+                if self.prog._canon_ext(m, d_) in ("datetime.timedelta", "operator.attrgetter", "operator.itemgetter"):
+                    return True
+                r_ = self.prog.resolve_name(m, d_) if "." not in d_ else self.prog.resolve_dotted(self.prog._canon_ext(m, d_))
+                t_ = self.ref_to_term(r_) if r_ is not None else None
+                return t_ is not None and t_[0] == "newtype"
+            return False
+        if immutable_literal(v):
+            # a module-level name for an immutable value built from literals (`_ZERO = Timestamp(timedelta(0))`) denotes that value
+            return self.ev.global_value(m, name)
         return ("gvar", q)
 
     def classvar(self, c: ClassInfo, name: str) -> Term:
@@ -2127,6 +2148,11 @@ class _FuncEval:
             sub = _FuncEval(self.ev, f, bound, cl, self.depth + 1, parent_eval=self)
             sm = sub.run()
         except RecursionError:
+            return self.record(fn, args, kwargs, st, n)
+        if (f.lru_cached or f.kind == "cached_property") and (sm.effects or any(
+                c_.fn[0] == "meth" and c_.args and c_.args[0][0] == "logger" for c_ in sm.calls)):
+            # memoisation is transparent only for pure functions: one that writes or logs does so on a cache miss only, so a call
+            # of it is not its body
             return self.record(fn, args, kwargs, st, n)
         live = [e for e in sm.exits if e.kind in ("ret", "raise")]
         if getattr(self, "_stmt_call", None) is n and not sm.loops and not sm.effects and not sm.unsupported and not sm.trys:
